@@ -174,6 +174,8 @@ func (fan *HwMonFan) SetPwmEnabled(value ControlMode) (err error) {
 			} else if ControlMode(currentValue) != value {
 				return fmt.Errorf("PWM mode stuck to %d", currentValue)
 			}
+		} else if ControlMode(currentValue) != value {
+			return fmt.Errorf("PWM mode stuck to %d", currentValue)
 		}
 	}
 	return err
